@@ -140,7 +140,7 @@ Definition glue_C07 (k : string) (a o : list value) : option verdict :=
     | _, _ => Some (relational false true)
     end
   else if is k "tss.flood" then
-    match run_flood o with
+    match run_flood_adm o with
     | Some b => Some (relational b b)
     | None => Some (relational false true)
     end
